@@ -229,4 +229,18 @@ CLAIMS["C08"] = {
     "note": "Trusts: lo <= hi; parents in the box (induction over generations); random()/uniform ranges; default pass-through evaluator; float rounding within the 1e-12 tolerance.",
 }
 
+CLAIMS["C07"] = {
+    "category": "other",
+    "technique": "effect analysis of the worker closure: stores and loads on access paths rooted at shared objects (Job, surrogate, data store, class attributes), lock-scope check; dispatch shape rule; thread-safe store rules reused from C11",
+    "text": "Decides the part of the property that is visible in the shape of the code and holds for every schedule: the parallel "
+            "dispatcher creates exactly one Job.evaluate task per design of the batch with shared memory, and no attribute of an object "
+            "shared between workers (the Job, the surrogate, the store, class attributes) is both rebound and read inside the closure of "
+            "Job.evaluate outside a common lock - so a design can only be completed from its own locals and its own fields; the shared "
+            "accesses that remain (an evaluation counter updated by += 1 only, the atomic append to problem.failed, the id counter read "
+            "into a freshly constructed object) are listed in the evidence. The thread-safe store uses a fresh connection per call and "
+            "retries on contention. This is a necessary condition for schedule-independence; equality with serial results as such needs a "
+            "thread-safe objective and is not decided.",
+    "note": "Trusts: joblib runs each task once; GIL atomicity of list.append; user objective/constraints thread-safe; predicting surrogates outside the claim.",
+}
+
 NOT_APPLICABLE = {}
